@@ -514,6 +514,7 @@ func (c *handlerCtx) handleCall() {
 	}
 
 	// handle call
+	verifGate("h.enter", c.sess)
 	if c.stat.OK() {
 		c.stat = c.pluginContainer.postReadCallBody(c)
 		if c.stat.OK() {
@@ -526,6 +527,7 @@ func (c *handlerCtx) handleCall() {
 	}
 
 	// reply call
+	verifGate("h.exit", c.sess)
 	c.setReplyBodyCodec(!c.stat.OK())
 	c.pluginContainer.preWriteReply(c)
 	stat := c.writeReply(c.stat)
@@ -538,6 +540,7 @@ func (c *handlerCtx) handleCall() {
 		}
 		return
 	}
+	verifGate("reply.written", c.sess)
 	writed = true
 	c.pluginContainer.postWriteReply(c)
 }
@@ -590,6 +593,7 @@ func (c *handlerCtx) bindReply(header Header) interface{} {
 
 	// unlock: handleReply
 	c.callCmd.mu.Lock()
+	verifGate("bind.locked", c.sess)
 	c.input.SetServiceMethod(c.callCmd.output.ServiceMethod())
 	c.swap = c.callCmd.swap
 	c.callCmd.inputBodyCodec = c.GetBodyCodec()
@@ -623,6 +627,7 @@ func (c *handlerCtx) handleReply() {
 		}
 		c.callCmd.result = c.input.Body()
 		c.stat = c.callCmd.stat
+		verifGate("reply.done", c.sess)
 		c.callCmd.done()
 		c.callCmd.cost = time.Duration(c.sess.timeNow() - c.callCmd.start)
 		if enablePrintRunLog() {
